@@ -146,4 +146,16 @@ structure IsPagOf (M0 P : MG) : Prop where
   tail : ∀ a b, (markAt M0 a b).isSome →
     (markAt P a b = some .tail ↔ ∀ M', Member M0 M' → markAt M' a b = some .tail)
 
+/-! ## what the validator requires of its *inputs* (the PAG and the source MAG sent by the harness) -/
+
+/-- every endpoint of an edge, in any of the four layers, is a node -/
+def WF4 (G : MG) : Prop := ∀ e ∈ G.dir ++ G.bi ++ G.un ++ G.circ, e.1 ∈ G.nodes ∧ e.2 ∈ G.nodes
+
+/-- the source graph is a graph with directed and bidirected edges between distinct nodes -/
+structure SourceOK (M0 : MG) : Prop where
+  wf : WF4 M0
+  noUn : M0.un = []
+  noCirc : M0.circ = []
+  noLoop : ∀ e ∈ M0.dir ++ M0.bi, e.1 ≠ e.2
+
 end C09
